@@ -1062,10 +1062,20 @@ func (l *Lang) PosSpan(shapes map[string]*Shape) *report.RuleResult {
 		nobj := 0
 		for _, p := range a.Paths {
 			w := l.contents(p)
+			builtAt := map[token.Pos]*Obj{} // call of the position builder -> the object that holds its result
 			// objects created in this action but attached through updates are in w.order too
 			for _, o := range w.order {
 				if isCarrier(o.TName) {
 					continue
+				}
+				if pv, ok := o.Fields["Position"].(PosV); ok && pv.At.IsValid() {
+					// one call of the builder yields one object from the pool: two nodes that both hold the result of the
+					// same call share it (seed C18-12: `pos := NewTokenPosition($1)` stored in a variable and its name)
+					if first, dup := builtAt[pv.At]; dup && first != o {
+						bad[fmt.Sprintf("%s/%s/shared-position", pkey, o.TName)] = fmt.Sprintf("%s and %s both hold the result of one call of %s: the two nodes share one position object, so writing through one changes the other", first.TName, o.TName, pv.Method)
+					} else {
+						builtAt[pv.At] = o
+					}
 				}
 				if ro, ok := p.Result.(*Obj); ok && ro == o && !esc[a.Prod.LHS] {
 					continue // a pkg/ast struct used as a carrier: consumers always take it apart
